@@ -774,7 +774,7 @@ def class_of(p):
 def class_cases(run, pool, snaps):
     """Systematic single removals of attribute files under sys/devices/system (x86: the cpuid dump): one
     light case per (snapshot x file-name class) - the instance rotates with the seed - in the quick tier,
-    up to 24 instances per class in the thorough tier."""
+    up to 16 instances per class in the thorough tier."""
     quick = run.tier == "quick"
     cases = []
     nclasses = 0
@@ -790,7 +790,7 @@ def class_cases(run, pool, snaps):
         for cls in sorted(classes):
             inst = classes[cls]
             nclasses += 1
-            k = 1 if quick else min(len(inst), 24)
+            k = 1 if quick else min(len(inst), 16)
             start = (run.seed * 7 + len(cls)) % len(inst)
             step = max(1, len(inst) // k)
             for j in range(k):
